@@ -141,6 +141,8 @@ PROPS = {
             part('sub', SUB, 250, 5000, monitors=[M.mon_c01], props=['C01'], chunk=60),
             part('gen', GEN, 250, 5000, monitors=[M.mon_c01], props=['C01'], chunk=60, sub='gen'),
             part('hooks', GEN, 250, 5000, monitors=[M.mon_c01], props=['C01'], chunk=60, sub='hooks'),
+            part('matrix', ACTIONS, 500, 10000, monitors=[M.mon_c01], props=['C01'], sub='matrix'),
+            part('duel', ACTIONS, 300, 6000, monitors=[M.mon_c01], props=['C01'], sub='duel'),
         ],
     },
     'C02': {
